@@ -175,8 +175,10 @@ LocMatches(e, d, num) ==
   IF e.loc.mode = "exact" THEN e.loc.glob[d + 1] = num
   ELSE /\ Len(e.loc.glob[d + 1]) = Len(num)
        /\ \A c \in DOMAIN num : FxNear(e.loc.glob[d + 1][c], FxRat(num[c], LocDen(e)), LocTol)
+\* (the reference table may list more rows than the element has functions: the boundary part of Element.condensed()
+\* keeps the rows of the interior functions it dropped; rows 1..NBfun belong to the functions)
 LocWellFormed(e) ==
-  /\ Len(e.loc.ref) = NBfun(e.kind, e.sig)
+  /\ Len(e.loc.ref) >= NBfun(e.kind, e.sig)
   /\ IF HasCellP(e)
      THEN Len(e.loc.pc) = NTc(e) /\ \A k \in 1..NTc(e) :
              Len(e.loc.pc[k]) = NNodes(e.kind) /\ \A v \in 1..NNodes(e.kind) : Len(e.loc.pc[k][v]) = Dim(e.kind)
@@ -238,13 +240,29 @@ OnRefEntity(kind, L, a, S) ==
        IN /\ \A j \in 1..3 : lam[j] >= 0 /\ (j \notin T => lam[j] = 0)
           /\ IF Cardinality(lv) = 1 THEN \A b \in lv : a[3] = L * b ELSE a[3] \in 0..L
 LocOnEntity(e) ==
-  /\ Len(e.loc.ref) = NBfun(e.kind, e.sig)
+  /\ Len(e.loc.ref) >= NBfun(e.kind, e.sig)
   /\ {VSet(e.loc.lf[s]) : s \in DOMAIN e.loc.lf} = RefFacets(e.kind) /\ Len(e.loc.lf) = NRefFacets(e.kind)
   /\ {VSet(e.loc.le[s]) : s \in DOMAIN e.loc.le} = RefEdges(e.kind) /\ Len(e.loc.le) = NRefEdges(e.kind)
-  /\ \A r \in DOMAIN e.loc.ref :
+  /\ \A r \in 1..NBfun(e.kind, e.sig) :
         \/ e.loc.ref[r] = <<>>
         \/ /\ Len(e.loc.ref[r]) = Dim(e.kind)
            /\ OnRefEntity(e.kind, e.loc.L, e.loc.ref[r], RowEntity(e, r))
+
+\* ---- one number, one point: every cell that carries number d in row r places it -- through its own reference map --
+\* at the location the table reports for d.  A location that depends on the direction in which the entity is traversed
+\* (e.g. 1/3 along a facet) is the same from both sides only where the library fixes that direction for all cells:
+\* on its sorted triangle / segment meshes (event flag orient = 1, a precondition stated by the driver: first-order
+\* MeshTri1 / MeshLine1 not built with sort_t = False nor passed through oriented()).  Elsewhere the clause speaks
+\* about the rows located at the barycentre of their entity (vertices, midpoints, centroids), which no traversal
+\* direction can move.  Not evaluated on meshes with per-cell geometry (periodic: locations differ by periods).
+AtBarycentre(e, r) ==
+  LET S == RowEntity(e, r) IN
+  \A c \in 1..Dim(e.kind) : Cardinality(S) * e.loc.ref[r][c] = e.loc.L * SumOver([v \in S |-> RefP(e.kind)[v][c]], S)
+SamePointFromAllCells(e) ==
+  \A k \in 1..NTc(e) : \A r \in 1..NBfun(e.kind, e.sig) :
+     (e.loc.ref[r] # <<>> /\ (e.orient = 1 \/ AtBarycentre(e, r))) =>
+        /\ e.loc.glob[e.cell[k][r] + 1] # <<>>
+        /\ LocMatches(e, e.cell[k][r], MapNum(e, k, e.loc.ref[r]))
 
 \* ---- composite elements: e.dec = [sigs, dec]; dec[i] = <<component, index within the component>> as the composite
 \* itself decodes local basis function i (ElementComposite._deduce_bfun).  The composite's local functions follow the
@@ -281,7 +299,10 @@ NumberClausesBase(e) ==
           ELSE IF e.loc.mode = "missing" THEN base @@ [DofLocsAvailable |-> FALSE]     \* element gives locations, basis has no table
           ELSE IF e.loc.mode = "inexact" THEN base @@ [DofLocsExact |-> FALSE]
           ELSE (IF base.Contiguous /\ e.N <= 100000
-                THEN base @@ [DofLocsCoherent |-> DofLocsCoherent(e)] ELSE base)
+                THEN base @@ [DofLocsCoherent |-> DofLocsCoherent(e)]
+                          @@ (IF LocWellFormed(e) /\ ~HasCellP(e) /\ "orient" \in DOMAIN e
+                              THEN [SamePointFromAllCells |-> SamePointFromAllCells(e)] ELSE <<>>)
+                ELSE base)
                @@ [LocOnEntity |-> LocOnEntity(e)]
 \* ---- periodic meshes: e.per = [pc, period]; pc[k][v] the coordinates of local vertex v of cell k, period[c] the
 \* period in coordinate c (0 = not periodic).  Two (cell, local vertex) slots carry the same vertex number iff their
@@ -295,8 +316,12 @@ PeriodicIdentification(e) ==
         (e.t[s1[1]][s1[2]] = e.t[s2[1]][s2[2]])
           <=> Congruent(e.per.pc[s1[1]][s1[2]], e.per.pc[s2[1]][s2[2]], e.per.period)
 
+\* the basis logged "Unable to calculate global DOF locations" although the element has reference locations
+DofLocsBuilt(e) == e.warn = 0
 NumberClauses(e) ==
-  LET base == NumberClausesBase(e)
+  LET base0 == NumberClausesBase(e)
+      base == IF base0.WellFormed /\ "warn" \in DOMAIN e /\ e.hasref = 1
+              THEN base0 @@ [DofLocsBuilt |-> DofLocsBuilt(e)] ELSE base0
       b2 == IF base.WellFormed /\ "dec" \in DOMAIN e /\ e.dec.sigs # <<>>
             THEN base @@ [CompositeDecodeOK |-> CompositeDecodeOK(e)] ELSE base
   IN IF base.WellFormed /\ "per" \in DOMAIN e
@@ -327,9 +352,49 @@ SparsityLocal(e) ==
   IN \A q \in DOMAIN e.nz :
         /\ e.nz[q][1] \in 0..(e.Ntest - 1) /\ e.nz[q][2] \in 0..(e.Ntrial - 1)
         /\ ct[e.nz[q][1]] \cap cu[e.nz[q][2]] # {}
+\* event flag cover = 1 (mass-like form on cell bases over the whole mesh): no number without an entry in its row
+\* and in its column -- a number that no integrated basis function carries shows up as an empty row
+NoEmptyRowCol(e) ==
+  /\ {e.nz[q][1] : q \in DOMAIN e.nz} = 0..(e.Ntest - 1)
+  /\ {e.nz[q][2] : q \in DOMAIN e.nz} = 0..(e.Ntrial - 1)
 MatrixClauses(e) ==
   IF ~MatWellFormed(e) THEN [WellFormed |-> FALSE]
   ELSE [WellFormed |-> TRUE, ShapeOK |-> ShapeOK(e), SparsityLocal |-> SparsityLocal(e)]
+       @@ (IF "cover" \in DOMAIN e /\ e.cover = 1 THEN [NoEmptyRowCol |-> NoEmptyRowCol(e)] ELSE <<>>)
+
+\* ---- CompositeBasis (several bases glued, composite_basis.py): event [parts, equal, whole, N, cell]; parts[i] = [N, cell]
+\* the numbering of part i (its element_dofs, per integrated cell), cell = the composite's element_dofs, equal = 1 for
+\* the equal_dofnum form (b0 @ b1: the parts share one numbering), whole = 1 if every part integrates over all cells of
+\* its mesh (then every number of every part is referenced).
+CompWellFormed(e) ==
+  /\ e.err = "" /\ Len(e.parts) >= 1
+  /\ \A i \in DOMAIN e.parts : Len(e.parts[i].cell) = Len(e.cell) /\ e.parts[i].N >= 1
+  /\ Len(e.cell) >= 1
+  /\ \A k \in DOMAIN e.cell : Len(e.cell[k]) = SumSeq([i \in DOMAIN e.parts |-> Len(e.parts[i].cell[k])])
+CompOffset(e, i) == IF e.equal = 1 THEN 0 ELSE SumSeq([j \in 1..(i - 1) |-> e.parts[j].N])
+\* total size: the sum of the parts (one shared numbering: the common size)
+CompSize(e) == IF e.equal = 1 THEN \A i \in DOMAIN e.parts : e.parts[i].N = e.N
+               ELSE e.N = SumSeq([i \in DOMAIN e.parts |-> e.parts[i].N])
+\* per cell: the rows of the parts in turn, part i shifted to the cumulative range [N_1 + .. + N_(i-1), .. + N_i)
+CompOffsets(e) ==
+  \A k \in DOMAIN e.cell :
+     e.cell[k] = FlattenSeq([i \in DOMAIN e.parts |-> [r \in DOMAIN e.parts[i].cell[k] |-> e.parts[i].cell[k][r] + CompOffset(e, i)]])
+\* read off the composite table alone: the numbers in the rows of part i stay inside the range of part i, hence a number
+\* belongs to exactly one part
+CompPartRows(e, k, i) ==
+  LET lo == SumSeq([j \in 1..(i - 1) |-> Len(e.parts[j].cell[k])]) IN
+  {e.cell[k][r] : r \in (lo + 1)..(lo + Len(e.parts[i].cell[k]))}
+CompPartsDisjoint(e) ==
+  e.equal = 1 \/ \A i \in DOMAIN e.parts :
+     LET mine == UNION {CompPartRows(e, k, i) : k \in DOMAIN e.cell} IN
+     /\ mine \subseteq CompOffset(e, i)..(CompOffset(e, i) + e.parts[i].N - 1)
+     /\ \A j \in DOMAIN e.parts : j > i => mine \cap UNION {CompPartRows(e, k, j) : k \in DOMAIN e.cell} = {}
+CompContiguous(e) == UNION {VSet(e.cell[k]) : k \in DOMAIN e.cell} = 0..(e.N - 1)
+CompositeBasisClauses(e) ==
+  IF ~CompWellFormed(e) THEN [WellFormed |-> FALSE]
+  ELSE [WellFormed |-> TRUE, CompSize |-> CompSize(e), CompOffsets |-> CompOffsets(e),
+        CompPartsDisjoint |-> CompPartsDisjoint(e)]
+       @@ (IF e.whole = 1 THEN [CompContiguous |-> CompContiguous(e)] ELSE <<>>)
 
 \* ===========================================================================
 \* C07.  b is a Basis event: kind, nv, t, facets, edges, t2f, t2e, sig, names, N and the four entity tables.
